@@ -35,6 +35,23 @@ def run(ctx):
         return False
     R.bound_guard(ctx, "C11.R1", F + "fai::record::Record::query", "interval start compared with the sequence length", length_cmp)
 
+    # quotient and remainder of the position decomposition are taken from the same value
+    fq = ctx.anchor("C11.R1", F + "fai::record::Record::query")
+    if fq is not None:
+        divs, rems = [], []
+        for blk in fq.blocks:
+            for st in blk["s"]:
+                if st[0] == "=" and st[2][0] == "bin" and st[2][1] in ("Div", "Rem"):
+                    (divs if st[2][1] == "Div" else rems).append((_root(fq, st[2][2]), _root(fq, st[2][3])))
+        if len(divs) != 1 or len(rems) != 1:
+            ctx.violation("C11.R1", "C11.R1/ANCHOR-MISSING/%s/div-rem" % fq.key, "expected one / and one %% in fai::Record::query, found %d/%d" % (len(divs), len(rems)), fq.loc())
+        elif divs[0] != rems[0]:
+            ctx.violation("C11.R1", "C11.R1/div-rem-operands/" + fq.key,
+                          "the line term and the column term of the offset are computed from different values (`a / n` and `b %% n` with a != b): "
+                          "a region starting on the last base of a line lands one line off", fq.loc())
+        else:
+            ctx.ok("C11.R1", "offset = position + x / n * w + x % n with the same x and n", "", fq.loc())
+
     ctx.rule("C11.R2", "A4 bounded copy: read_sequence_limit extends by min(remaining, src.len()); sequence reader stops at '>'")
     f = ctx.anchor("C11.R2", F + "io::reader::sequence::read_sequence_limit")
     if f is not None:
@@ -112,3 +129,18 @@ def run(ctx):
         else:
             ctx.ok("C11.R5", s["fn"], s["class"], fn.loc(s["block"]))
     ctx.floor("C11.R5", "FASTA/FASTQ fill_buf sites", n, 10)
+
+
+def _root(f, op, depth=0):
+    """The variable (or call result) an operand was copied from, through moves/copies."""
+    l = C.op_local(op)
+    while l is not None and depth < 10:
+        d = C.single_def(f, l)
+        if d is None or d[0] != "=" or d[3][0] != "use":
+            return l
+        nl = C.op_local(d[3][1])
+        if nl is None:
+            return l
+        l = nl
+        depth += 1
+    return l
